@@ -1,7 +1,7 @@
 (* C09 -- property theorems only: each is closed by [exact] of a lemma proved elsewhere. *)
 From Coq Require Import List Arith ZArith NArith PArith Permutation.
 From Muscle Require Import Cont.HtModel Cont.HtStep Cont.HtIdeal Cont.HtLemmas Cont.HtRepr Cont.HtWalk
-                           Cont.HtTable Cont.HtInv Cont.HtSafe Cont.HtSafeAll Cont.HtRefine Cont.HtPend Cont.HtTravW Cont.HtTravOps Cont.HtTravThm Cont.HtTravRefuted Cont.HtSorted Cont.HtSortedThm Cont.HtIdealLaws Cont.HtLaws Gen.Consts.
+                           Cont.HtTable Cont.HtInv Cont.HtSafe Cont.HtSafeAll Cont.HtRefine Cont.HtPend Cont.HtTravW Cont.HtTravOps Cont.HtTravSem Cont.HtTravThm Cont.HtTravAny Cont.HtTravRefuted Cont.HtSorted Cont.HtSortedThm Cont.HtIdealLaws Cont.HtLaws Gen.Consts.
 Import ListNotations.
 
 (* InsertIterationEntry is list insertion: if the links of h form the list l1 ++ l2 and e is an
@@ -106,39 +106,42 @@ Proof. exact reposition_ordered_perm. Qed.
 Print Assumptions C09_ordered_reposition_permutes.
 
 (* Traversals.  [tr_ok i w ops]: ops consists of advances of iterator i and of operations that do not
-   operate on iterator i and are calm ([calm]): Put of a new key (any class) or of any key of the plain
-   class, PutIfNotAlreadyPresent, GetOrPut, every query, Remove / RemoveFirst / RemoveLast, Remove(table),
-   Intersect, EnsureSize / ShrinkToFit / EnsureCanPut, Clear, CopyFrom with clearing, copy construction,
-   move construction, PreallocatedItemSlotsCount construction, SwapContents / move assignment,
-   MoveToTable / CopyToTable, destruction, and every operation on other iterators.  Operations that
-   may relink a surviving entry (MoveTo*, GetAndMoveTo*, PutAt*/PutBefore/PutBehind, Sort*, Reposition,
-   SetAutoSortEnabled, Put of an existing key on an auto-sorting table, CopyFrom without clearing) are
-   admitted only when they leave the world unchanged.  [trav i w ops]: the entries newly shown by the advances.
-   PARTIAL.  Full statement: the same three theorems with [calm] replaced by the semantic premise "the
-   operation does not change the relative order of the surviving entries of the iterator's table"
-   ([sem_ok]).  That statement is REFUTED for Put-with-position on the auto-sorting classes
-   (C09_traversal_semantic_refuted below, replayed on the implementation); for the other relinking
-   operations (which act only when they change the order, after fix 5556955) it is not proved here --
-   the harness oracle evaluates exactly that semantic premise on the implementation. *)
+   operate on iterator i and are quiet ([quiet]), i.e. one of
+   (a) calm ([calm]): every query, Put of a new key (any class) or of any key of the plain class,
+       PutIfNotAlreadyPresent, GetOrPut, Remove / RemoveFirst / RemoveLast, Remove(table), Intersect,
+       EnsureSize / ShrinkToFit / EnsureCanPut, Clear, CopyFrom with clearing, copy and move
+       construction, PreallocatedItemSlotsCount construction, SwapContents / move assignment,
+       destruction, every operation on other iterators -- no premise at all on these;
+   (b) a relinking operation ([relinking]: Put of an existing key on an auto-sorting table,
+       MoveToTable / CopyToTable, PutAtFront/AtBack/Before/Behind/AtPosition, MoveToFront/Back/Before/
+       Behind/Position, GetAndMoveToFront/Back, SortByKey / SortByValue / Sort, Reposition,
+       SetAutoSortEnabled, CopyFrom without clearing) that leaves the relative order of the entries
+       of the iterator's table unchanged ([kept]: a decidable comparison of the two id lists), and is
+       not a double move ([double_move]: Put-with-position of an EXISTING key on an auto-sorting
+       class, which repositions the entry twice and is classified as a reordering operation: see
+       C09_traversal_semantic_refuted; it is admitted under (a) when it changes nothing).
+   [sem_okd] is the same premise as a boolean function of the run.  [trav i w ops]: the entries newly
+   shown by the advances.  So: in a traversal that the mutations did not reorder, no entry is shown
+   twice and no entry that stays in the table is skipped, whatever else happens to any table. *)
 
 (* no entry is shown twice *)
-Theorem C09_iter_no_dup_partial : forall var dcap i ops w, WF w -> reg w i -> tr_ok var dcap i w ops ->
+Theorem C09_iter_no_dup : forall var dcap i ops w, WF w -> reg w i -> tr_ok var dcap i w ops ->
   NoDup (trav var dcap i w ops).
 Proof. exact trav_nodup. Qed.
-Print Assumptions C09_iter_no_dup_partial.
+Print Assumptions C09_iter_no_dup.
 
 (* nothing that stays in the iterator's table is skipped: it is shown, or still to come *)
-Theorem C09_iter_no_skip_partial : forall var dcap i ops w, WF w -> reg w i -> tr_ok var dcap i w ops ->
+Theorem C09_iter_no_skip : forall var dcap i ops w, WF w -> reg w i -> tr_ok var dcap i w ops ->
   forall n, In n (pending w i) -> stays var dcap i n w ops ->
   In n (trav var dcap i w ops) \/ In n (pending (run1 var dcap w ops) i).
 Proof. exact trav_noskip. Qed.
-Print Assumptions C09_iter_no_skip_partial.
+Print Assumptions C09_iter_no_skip.
 
 (* a complete traversal: an iterator created by GetIterator() (either direction) on a non-empty table
-   and advanced, interleaved with any calm operations on any tables and any operations on other
+   and advanced, interleaved with any quiet operations on any tables and any operations on other
    iterators, until HasData() is false, has shown every entry that was in its table from creation to
    the end exactly once, and no entry twice *)
-Theorem C09_traversal_complete_partial : forall var dcap w0 i t bw ops, WF w0 ->
+Theorem C09_traversal_complete : forall var dcap w0 i t bw ops, WF w0 ->
   i < length (its w0) -> t < length (tabs w0) -> cnt (gett w0 t) <> 0 ->
   let w := fst (step1 var dcap w0 (OIterNew i t bw)) in
   tr_ok var dcap i w ops ->
@@ -146,10 +149,45 @@ Theorem C09_traversal_complete_partial : forall var dcap w0 i t bw ops, WF w0 ->
   let V := opt_list (cur w i) ++ trav var dcap i w ops in
   NoDup V /\ (forall n, In n (ids (gett w0 t)) -> stays var dcap i n w ops -> In n V).
 Proof. exact traversal_complete. Qed.
-Print Assumptions C09_traversal_complete_partial.
+Print Assumptions C09_traversal_complete.
 
-(* the purely semantic premise is not sufficient: a run in which every mutation keeps the relative
-   order of the surviving entries, yet an entry that stays in the table is never shown *)
+(* one quiet operation: what is pending for a registered iterator stays pending as long as it stays
+   in the table, and nothing but brand-new entries becomes pending *)
+Theorem C09_quiet_step : forall var dcap w o i, WF w -> quiet var dcap i w o -> touches i o = false -> reg w i ->
+  calm_rel w (fst (step1 var dcap w o)) i /\ reg (fst (step1 var dcap w o)) i.
+Proof. exact quiet_step. Qed.
+Print Assumptions C09_quiet_step.
+
+(* the premise as a decidable check of the run *)
+Theorem C09_traversal_premise_decidable : forall var dcap i ops w,
+  sem_okd var dcap i w ops = true -> tr_ok var dcap i w ops.
+Proof. exact sem_okd_tr_ok. Qed.
+Print Assumptions C09_traversal_premise_decidable.
+
+(* Under ANY operations, reordering ones included (moves, sorts, double moves): whatever a live
+   iterator points at is a live entry of its own table -- it never yields a removed entry (what it
+   shows is then that entry's key and value, or the saved copy of the entry removed under it:
+   C09_shown_safe) ... *)
+Theorem C09_iter_yields_live : forall var dcap ops w i x, WF w ->
+  cur (run1 var dcap w ops) i = Some x -> In x (it_list (run1 var dcap w ops) i).
+Proof. exact iter_yields_live. Qed.
+Print Assumptions C09_iter_yields_live.
+
+(* ... and from any such state, advancing it with no further mutation reaches the end within one step
+   more than the table has entries (precisely: than it has entries left to visit) *)
+Theorem C09_iter_terminates : forall var dcap i n w, WF w -> length (pending w i) < n ->
+  shown (run1 var dcap w (repeat (OIterAdv i) n)) i = None.
+Proof. exact adv_terminates. Qed.
+Print Assumptions C09_iter_terminates.
+
+Theorem C09_iter_terminates_cnt : forall var dcap i w, WF w ->
+  shown (run1 var dcap w (repeat (OIterAdv i) (S (length (it_list w i))))) i = None.
+Proof. exact adv_terminates_cnt. Qed.
+Print Assumptions C09_iter_terminates_cnt.
+
+(* the double move has to be excluded: a run in which every mutation keeps the relative order of the
+   surviving entries ([sem_ok]: [sem_okd] without the double-move test), yet an entry that stays in
+   the table is never shown *)
 Theorem C09_traversal_semantic_refuted :
   exists (w : world) (ops : list op) (n : positive),
     sem_ok VVals 7%N 0 w ops = true /\
@@ -168,8 +206,19 @@ Example C09_traversal_nonvacuous :
   tr_ok VPlain 7%N 0 w ops /\ shown (run1 VPlain 7%N w ops) 0 = None /\ length (trav VPlain 7%N 0 w ops) = 3.
 Proof.
   cbv zeta. split; [|split; vm_compute; reflexivity].
-  repeat (first [apply tr_adv | apply tr_mut; [reflexivity|cbn [calm]; try exact I; left; reflexivity|] | apply tr_nil]).
+  repeat (first [apply tr_adv | apply tr_mut; [reflexivity|left; cbn [calm]; try exact I; left; reflexivity|] | apply tr_nil]).
 Qed.
+
+(* ... and with relinking operations on an OrderedKeysHashtable: a Put that replaces a value, a sort of
+   the sorted table, moves onto the own position, a Put-with-position of a new key, a CopyFrom
+   without clearing that adds and re-sorts, between the advances *)
+Example C09_traversal_relinking_nonvacuous :
+  let w0 := run1 VKeys 7%N (init_world 7%N 2 1) [OPut 0 3%Z 3%Z; OPut 0 1%Z 1%Z; OPut 0 4%Z 4%Z; OPut 0 2%Z 2%Z; OPut 1 2%Z 7%Z; OPut 1 8%Z 8%Z] in
+  let w := fst (step1 VKeys 7%N w0 (OIterNew 0 0 false)) in
+  let ops := [OPut 0 2%Z 20%Z; OSortKey 0; OIterAdv 0; OMoveFront 0 1%Z; OMoveBehind 0 3%Z 2%Z; ORemove 0 2%Z; OPutAtBack 0 9%Z 9%Z;
+              OCopyFrom 0 1 false; OIterAdv 0; OMovePos 0 4%Z 3; OReposition 0 4%Z; OIterAdv 0; OIterAdv 0; OIterAdv 0; OIterAdv 0] in
+  sem_okd VKeys 7%N 0 w ops = true /\ shown (run1 VKeys 7%N w ops) 0 = None /\ length (trav VKeys 7%N 0 w ops) = 5.
+Proof. vm_compute. repeat split; reflexivity. Qed.
 
 (* the auto-sorting classes (OrderedKeysHashtable: var = VKeys, OrderedValuesHashtable: var = VVals):
    in every world reachable by operations that keep auto-sort enabled and do not explicitly reorder
